@@ -7,5 +7,8 @@ CONSTANTS
   MaxNotifs = 2
   Lazy = TRUE
   DrainAfterIdle = TRUE
+  Resumed = FALSE
+  Age = 0
+  StartWaitIdle = FALSE
 INVARIANTS NotFaster NoLostWakeup Regular
 CHECK_DEADLOCK FALSE
